@@ -119,11 +119,11 @@ def run():
     write(sem, cases, False)
     mutants = [
         ("InkLook.tla", "rewind keeps the look-ahead's variables",
-         'IF ch = "extended" THEN [m |-> e.snap, snap |-> NoSnap, done |-> TRUE]',
-         'IF ch = "extended" THEN [m |-> [e.snap EXCEPT !.vars = m2.vars], snap |-> NoSnap, done |-> TRUE]', "InkLookTrace", "LOOK", look),
+         'IF ch = "extended" THEN [m |-> e.snap, snap |-> NoSnap, done |-> TRUE, log |-> log]',
+         'IF ch = "extended" THEN [m |-> [e.snap EXCEPT !.vars = m2.vars], snap |-> NoSnap, done |-> TRUE, log |-> log]', "InkLookTrace", "LOOK", look),
         ("InkLook.tla", "rewind keeps the look-ahead's visit counts",
-         'IF ch = "extended" THEN [m |-> e.snap, snap |-> NoSnap, done |-> TRUE]',
-         'IF ch = "extended" THEN [m |-> [e.snap EXCEPT !.cnt = m2.cnt], snap |-> NoSnap, done |-> TRUE]', "InkLookTrace", "LOOK", look),
+         'IF ch = "extended" THEN [m |-> e.snap, snap |-> NoSnap, done |-> TRUE, log |-> log]',
+         'IF ch = "extended" THEN [m |-> [e.snap EXCEPT !.cnt = m2.cnt], snap |-> NoSnap, done |-> TRUE, log |-> log]', "InkLookTrace", "LOOK", look),
         ("InkLook.tla", "a tag after a newline does not end the line",
          'ELSE IF currTags > prevTags THEN "extended"',
          'ELSE IF currTags > prevTags THEN "none"', "InkLookTrace", "LOOK", look),
@@ -144,6 +144,47 @@ def run():
         open(os.path.join(d, fname), "w").write(src.replace(old, new, 1))
         ok, m, out = tlc_in(d, module, {var: data}, wd)
         bad += expect("specification mutant rejected by the recorded plays: " + what, ok and len(m) > 0, "%d cases rejected" % len(m))
+        shutil.rmtree(d, ignore_errors=True)
+
+    # 3b. mutants of the DESIGN are caught by the exhaustive design-level exploration (no code involved)
+    mcprogs = c01.small_programs(3, 4)
+    cfg = os.path.join(wd, "mc.cfg")
+    with open(cfg, "w") as f:
+        f.write("SPECIFICATION Spec\nCONSTANT MaxCalls = 4\nVIEW hview\nINVARIANT LookAheadIsInvisible\nINVARIANT SwitchAwayAndBack\n"
+                "INVARIANT OthersUntouched\nINVARIANT SaveLoadIdentity\nINVARIANT ResetIsInitial\nINVARIANT RefusedIsNoOp\nCHECK_DEADLOCK FALSE\n")
+
+    def mc(specdir):
+        bad_inv = set()
+        for i, pr in enumerate(mcprogs):
+            path = os.path.join(wd, "mcp-%d.ndjson" % i)
+            open(path, "w").write(json.dumps(pr["prog"]) + "\n")
+            e = dict(os.environ, MCPROG=path, JAVA_TOOL_OPTIONS="-Xss1g -Xmx4g -Djava.io.tmpdir=%s" % wd)
+            pp = subprocess.run(["timeout", "900", "tlc", "-workers", "4", "-metadir", os.path.join(wd, "meta-mc"), "-cleanup",
+                                 "-noGenerateSpecTE", "-config", cfg, "InkHostMC.tla"], cwd=specdir, env=e, capture_output=True, text=True)
+            subprocess.run(["rm", "-rf", os.path.join(wd, "meta-mc")])
+            bad_inv |= set(re.findall(r"Invariant (\w+) is violated", pp.stdout))
+            if "No error has been found" not in pp.stdout and not bad_inv:
+                bad_inv.add("TLC-ERROR")
+        return bad_inv
+    bad += expect("design-level invariants hold on every history of <= 4 calls (InkHostMC)", mc(lib.SPEC) == set())
+    for fname, what, old, new, inv in [
+        ("InkHost.tla", "a flow left behind loses its output", "FlowOf(m) == [th |-> m.th, out |-> m.out,", "FlowOf(m) == [th |-> m.th, out |-> <<>>,", "SwitchAwayAndBack"),
+        ("InkLook.tla", "rewind keeps the look-ahead's visit counts",
+         'IF ch = "extended" THEN [m |-> e.snap, snap |-> NoSnap, done |-> TRUE, log |-> log]',
+         'IF ch = "extended" THEN [m |-> [e.snap EXCEPT !.cnt = m2.cnt], snap |-> NoSnap, done |-> TRUE, log |-> log]', "LookAheadIsInvisible"),
+        ("InkHost.tla", "reset forgets the named flows' removal", "Reset(h) == Ok([h EXCEPT !.m = S!Start, !.cur = DefaultFlow, !.others = <<>>])",
+         "Reset(h) == Ok([h EXCEPT !.m = S!Start, !.cur = DefaultFlow])", "ResetIsInitial"),
+    ]:
+        d = os.path.join(wd, "mutant")
+        shutil.rmtree(d, ignore_errors=True)
+        shutil.copytree(lib.SPEC, d)
+        src = open(os.path.join(d, fname)).read()
+        if old not in src:
+            bad += expect("design mutant: " + what, False, "pattern not found in " + fname)
+            continue
+        open(os.path.join(d, fname), "w").write(src.replace(old, new, 1))
+        got = mc(d)
+        bad += expect("design mutant caught by TLC (%s): %s" % (inv, what), inv in got, str(sorted(got)))
         shutil.rmtree(d, ignore_errors=True)
 
     # 4. host-protocol trace
